@@ -45,6 +45,13 @@ def run(ctx, replay):
                           {"rootref": "dropds", "answer": "data"}, {"rootref": "strip"}, {"answer": "fakedname"}, {"answer": "foreigndeny"}):
                     cases.append({"zone": zone, "qk": qk, "flags": fl, "tamper": dict(none, **t), "anchor": True,
                                   "exp": {"rcode": "servfail", "ad": False}})
+    # an empty non-terminal below a wildcard's parent: honest (NODATA), and with the wildcard replayed over it
+    for zone in ("signed", "nsec3", "signed-same"):
+        for fl in ({"do": True, "ad": False, "cd": False}, {"do": False, "ad": True, "cd": False}):
+            cases.append({"zone": zone, "qk": "ent", "flags": fl, "tamper": dict(none), "anchor": True,
+                          "exp": {"rcode": "noerror", "ad": True}})
+            cases.append({"zone": zone, "qk": "ent", "flags": fl, "tamper": dict(none, answer="wildrep"), "anchor": True,
+                          "exp": {"rcode": "servfail", "ad": False}})
     seen = set()
     cases = [c for c in cases if not (repr(c) in seen or seen.add(repr(c)))]
     for c in cases:
